@@ -1115,6 +1115,8 @@ type witnessEnv struct {
 	I8    int8
 	First func([]interface{}) interface{}
 	Null  func() interface{}
+	Big   interface{} // a float beyond 2^53 behind an interface: arithmetic on it must not be regrouped
+	Tiny  interface{}
 }
 
 func newWitnessEnv() *witnessEnv {
@@ -1125,7 +1127,7 @@ func newWitnessEnv() *witnessEnv {
 		I8f:  func(x int8) int8 { return x },
 		Next: func() int { n++; return n }, I8: 7,
 		First: func(xs []interface{}) interface{} { return xs[0] },
-		Null:  func() interface{} { return nil }}
+		Null:  func() interface{} { return nil }, Big: 1e16, Tiny: 0.1}
 }
 
 var witnessTable = []struct {
@@ -1153,6 +1155,15 @@ var witnessTable = []struct {
 	{"c02:constexpr-nil-result", `Null()`, []string{"Null"}, "ConstExpr function returning nil: the compiler cannot emit the nil constant"},
 	{keyRangeOverflow, `len(0..9223372036854775807)`, nil, "a literal range whose size overflows int is folded to the empty constant"},
 	{keyVMRangeOverflow, `3 in 0..9223372036854775807`, nil, "OpRange computes max-min+1 in int: the unoptimised range of 2^63 elements is empty"},
+	// no listed deviation: dynamically typed operands whose run-time value is a float where rounding shows — folding
+	// or regrouping the integer literals around them must not change the result (seed c02_7: (x + a) + b -> x + (a+b))
+	{"c02:arithmetic-regrouped", `Big + 1 + 2`, nil, "literals regrouped around a dynamically typed operand holding 1e16"},
+	{"c02:arithmetic-regrouped", `Big + 1 + 2 + 3 + 4`, nil, "literals regrouped around a dynamically typed operand holding 1e16"},
+	{"c02:arithmetic-regrouped", `(Big - 1) - 2`, nil, "literals regrouped around a dynamically typed operand holding 1e16"},
+	{"c02:arithmetic-regrouped", `1 + 2 + Big + 1 + 2`, nil, "literals regrouped around a dynamically typed operand holding 1e16"},
+	{"c02:arithmetic-regrouped", `Big * 3 * 3`, nil, "literals regrouped around a dynamically typed operand holding 1e16"},
+	{"c02:arithmetic-regrouped", `Tiny + 1 + 2 == Tiny + 3`, nil, "literals regrouped around a dynamically typed operand holding 0.1"},
+	{"c02:arithmetic-regrouped", `[Anys[0] + 1 + 2, Big + 1 + 1]`, nil, "literals regrouped around dynamically typed operands"},
 	{"c02:budget-differs", `len(1..1000000)`, nil, "constant range is not counted against the memory budget"},
 	{"c02:budget-differs", `len(map(1..400000, {# in [1, 2, 3]}))`, nil, "literal array inside a loop is counted only when not folded"},
 }
